@@ -144,6 +144,7 @@ func init() {
 			"ENUM-CONVERT:basicCommonValidator:lossy-conversion": "documents are decoded JSON/YAML: instance and enum members are float64/string/bool, between which no value-changing conversion exists",
 			"PURE:EnumCase:lossy-conversion":                     "same: decoded JSON values only",
 			"PURE:UniqueItems:numeric-equality":                  "same: every number of a decoded document is a float64",
+			"TYPE-TABLE:typeValidator:integrality-tolerance":     "every integer-typed member of a Swagger document is an *int64 of the typed model: a document with a fractional value there does not load",
 		},
 		Rules:       []Rule{KeyExemption, NilPath, MustPass, RuleSeq, ResultAlgebra, Keywords("SchemaValidator", schemaKeywords, "schema_ctor_calls"), Counting, Orderings, Pure, ArgRole, TypeTable, ObjectRouting, SliceRouting, KeywordRouting, KeywordPred, KeywordGuard, EnumConvert, KConsistent, GuardScope},
 		Explanation: "SCHEMA-PASS clauses shared with C01, because the first pass is the schema validator run on the Swagger schema (anchors object_validator.go, schema_props.go): KEYWORDS — every keyword the Swagger schema uses (type, enum, pattern, min/max*, required, properties, patternProperties for x- extensions, additionalProperties:false, allOf/anyOf/oneOf/not, items, uniqueItems, format) reaches a sub-validator field that is read while validating; MEMBER-GUARD / K-CONSISTENT — every member of every object and array of the document is validated against its schema whatever its name or value (an exemption for a name such as 'id' silently accepts an invalid entry of definitions/properties/headers); KEYWORD-GUARD — no constraint helper is conditioned on the instance; COUNTING — oneOf over the parameter kinds is decided exactly (none / exactly one / several valid); ROUTING — in every configuration of properties / patternProperties / additionalProperties a member is handed to the pattern matcher and, when undeclared and unmatched, to the additionalProperties schema; ENUM-CONVERT. MUST-PASS: in (*SpecValidator).Validate the validation of json.Unmarshal(doc.Raw()) against the validator's Swagger schema, built with the validator's schemaOptions, dominates every other rule and every verdict-returning exit; NewSpecValidator applies SwaggerSchema(true) (both strictness flags) to those options; the result is merged with Merge into the error accumulator (RULE-SEQ) whose errors only grow (RESULT-ALGEBRA / RES-ALIAS: append-only writes); Spec() returns nil exactly on !errs.HasErrors(); each expanded parameter is re-validated against #/definitions/parameter and merged. KEY-EXEMPTION: the forbidden-property error is not control dependent on member names (\"id\" and \"$schema\" are exempt: known finding, the embedded fixture relies on it). NILPATH as for C01 (known finding with Swagger inputs).",
